@@ -11,6 +11,8 @@
   exercised by direct round trips on real bytes in the correspondence run (test level).
 -/
 import MocVerif.Model.STCodec
+import MocVerif.Model.STText
+import MocVerif.Props.C07
 
 namespace Moc.STCodec.C11
 open Moc Moc.STCodec
@@ -105,5 +107,58 @@ example : ElemOk 64 ([(2 ^ 62, 2 ^ 62 + 5)], [(0, 4), (8, 12)]) := by
   intro r hr
   simp at hr
   rcases hr with rfl | rfl <;> simp [isT, flag]
+
+/-! ### ASCII serialisation of ST-MOCs (token level) -/
+section Text
+open Moc.STText Moc.Codec
+
+theorem normalize_nil : normalize ([] : List Rng) = [] := by
+  have n := normalize_spec []
+  cases h : normalize ([] : List Rng) with
+  | nil => rfl
+  | cons r t =>
+    have c := n.1; rw [h] at c
+    have := (n.2 r.1).1 (by rw [h]; exact Or.inl ⟨Nat.le_refl _, c.2.1⟩)
+    cases this
+
+/-- The depth-only part `d/` decodes to the empty MOC of depth `d`. -/
+theorem decode_depth_only (q : Qty) (w d : Nat) (h : d ≤ q.maxDepth w ∧ d ≤ 255) :
+    decodeToks q w [Tok.depth d] = .ok (d, []) := by
+  have h1 : ¬ (d > 255) := by omega
+  have h2 : ¬ (d > q.maxDepth w) := by omega
+  simp only [decodeToks, decodeRaw, h1, h2, ↓reduceIte, loopToks, List.reverse_nil, finish, List.map_nil]
+  have : Codec.sortByStart ([] : List Rng) = [] := by simp [Codec.sortByStart]
+  rw [this]
+  simp [adjOverlap, normalize_nil]
+
+/-- **ST ASCII round trip**: for EVERY list of elements whose time part is a valid non-empty T-MOC of
+    depth `d1` and whose space part is a valid non-empty S-MOC of depth `d2`, reading the token-level
+    document the writer emits (every element with the two global depths, then the depth-only element
+    `t d1/ s d2/`) gives back exactly `(d1, d2, elements)` — including the empty ST-MOC, for which only
+    the depth-only element is written, and unoccupied deepest levels. Rests on the 1-D end-to-end
+    theorem `ascii_roundtrip_moc` (C07) for each part. -/
+theorem st_ascii_roundtrip (w d1 d2 : Nat) (elems : List STText.Elem)
+    (h1 : d1 ≤ Params.time.maxDepth w ∧ d1 ≤ 255) (h2 : d2 ≤ Params.hpx.maxDepth w ∧ d2 ≤ 255)
+    (hv : ∀ e ∈ elems, Valid Params.time w d1 e.1 ∧ Valid Params.hpx w d2 e.2 ∧ e.1 ≠ [] ∧ e.2 ≠ []) :
+    decodeDoc w (encodeDoc w d1 d2 elems) = .ok (d1, d2, elems) := by
+  have ht : Params.time.dim = 1 ∨ Params.time.dim = 2 := by decide
+  have hh : Params.hpx.dim = 1 ∨ Params.hpx.dim = 2 := by decide
+  unfold encodeDoc
+  induction elems with
+  | nil =>
+    simp only [List.map_nil, List.nil_append, decodeDoc, decode_depth_only _ w d1 h1,
+      decode_depth_only _ w d2 h2]
+    simp
+  | cons e t ih =>
+    obtain ⟨v1, v2, n1, n2⟩ := hv e List.mem_cons_self
+    have r1 := Moc.Codec.C07.ascii_roundtrip_moc Params.time ht w d1 h1.1 h1.2 e.1 v1
+    have r2 := Moc.Codec.C07.ascii_roundtrip_moc Params.hpx hh w d2 h2.1 h2.2 e.2 v2
+    have iht := ih (fun x hx => hv x (List.mem_cons_of_mem _ hx))
+    simp only [List.map_cons, List.cons_append, decodeDoc, r1, r2, iht]
+    have e1 : e.1.isEmpty = false := by cases h : e.1 <;> simp_all
+    have e2 : e.2.isEmpty = false := by cases h : e.2 <;> simp_all
+    simp [e1, e2]
+
+end Text
 
 end Moc.STCodec.C11
